@@ -33,7 +33,10 @@ package verifspec
 //@ func compiler/internal/dce.Selector.Include
 //@ property C05
 //@   requires s != nil
+// representation invariant of the index (no nil entries): kept
+//@   requires all(f, forall(i, 0, len(s.byFilter[f]), s.byFilter[f][i] != nil))
 //@   assigns s.byFilter, s.pendingDecls
+//@   ensures all(f, forall(i, 0, len(s.byFilter[f]), s.byFilter[f][i] != nil))
 //@   ensures (asptr(dceOf(key(decl)), "compiler/internal/dce.Info").alive || (len(asptr(dceOf(key(decl)), "compiler/internal/dce.Info").objectFilter) == 0 && len(asptr(dceOf(key(decl)), "compiler/internal/dce.Info").methodFilter) == 0) || implementsLink) ==> len(s.pendingDecls) == len(old(s.pendingDecls)) + 1 && s.pendingDecls[len(s.pendingDecls) - 1] == decl
 //@   ensures len(s.pendingDecls) >= len(old(s.pendingDecls)) && forall(k, 0, len(old(s.pendingDecls)), s.pendingDecls[k] == old(s.pendingDecls)[k])
 
@@ -228,7 +231,9 @@ package verifspec
 // (the instance is an instance of the declared function: what the type checker recorded for the name is its object)
 //@   requires fc.pkgCtx.Info != nil && fc.pkgCtx.Info.Info != nil && has(fc.pkgCtx.Info.Info.Defs, fun.Name) && key(fc.pkgCtx.Info.Info.Defs[key(fun.Name)]) == key(inst.Object)
 //@   panics_only_if true
-//@   assigns heap(pkgContext.pkgVars), heap(funcContext.allVars), heap(funcContext.localVars), heap(funcContext.objectNames), heap(Info.alive), heap(Info.objectFilter), heap(Info.methodFilter)
+//@   requires -1000000000 <= fc.pkgCtx.indentation && fc.pkgCtx.indentation <= 1000000000
+//@   assigns heap(pkgContext.pkgVars), heap(funcContext.allVars), heap(funcContext.localVars), heap(funcContext.objectNames), heap(Info.alive), heap(Info.objectFilter), heap(Info.methodFilter), fc.output, fc.posAvailable, fc.pkgCtx.indentation
+//@   ensures fc.pkgCtx.indentation == old(fc.pkgCtx.indentation)
 //@   ensures result != nil && newobj(result) && len(result.FullName) > 0 && result.FullName[0] == 102
 //@   ensures !isMethodObj(key(inst.Object)) && nameIsInit(key(inst.Object)) ==> asptr(dceOf(key(result)), "compiler/internal/dce.Info").alive
 //@   ensures !isMethodObj(key(inst.Object)) && nameIsMain(key(inst.Object)) && isMainPkg(ref(fc.pkgCtx)) ==> asptr(dceOf(key(result)), "compiler/internal/dce.Info").alive
@@ -248,5 +253,6 @@ package verifspec
 //@ func compiler.funcContext.newImportDecl
 //@ property C05
 //@   requires fc != nil && fc.pkgCtx != nil
+//@   requires -1000000000 <= fc.pkgCtx.indentation && fc.pkgCtx.indentation <= 1000000000
 //@   panics_only_if true
 //@   ensures result != nil && asptr(dceOf(key(result)), "compiler/internal/dce.Info").alive
